@@ -1,3 +1,4 @@
+// @READY (registered in vf/props.py)
 // appended to src/common/alccodec/alcrs28.rs (scratch copy only) -- RFC 5510 section 5 (FEC Encoding ID 5, Reed-Solomon GF(2^8))
 #[cfg(any(kani, test))]
 #[allow(dead_code, unused_imports, unused_macros)]
